@@ -226,7 +226,53 @@ def search(qn, model, n_random=4000, seed=0):
     return None
 
 
+def crosscheck(qns, n, seed):
+    """Engine cross-check: run every listed function on seeded inputs satisfying its precondition and evaluate the SAME contract
+    text at run time.  On a tree where pyvc discharged every obligation a failure here means the engine or a trusted library
+    contract is wrong (checker error), never a verdict about the repository."""
+    contracts, macros = CT.load_all()
+    out = []
+    for qn in qns:
+        c = contracts.get(qn)
+        if c is None or c.get("segment") or "#" in qn:
+            out.append(dict(function=qn, status="skipped", why="segment / no callable entry point"))
+            continue
+        try:
+            real_function(qn)
+        except Exception as ex:
+            out.append(dict(function=qn, status="skipped", why="not importable as a plain function: %s" % str(ex)[:60]))
+            continue
+        rng = random.Random(seed)
+        ran = ok_pre = 0
+        failure = None
+        variants = c.get("variants") or [None]
+        try:
+            for i in range(n):
+                var = rng.choice(variants)
+                pt = dict(c["params"], **var) if var else c["params"]
+                args = c["gen_all"](rng) if c.get("gen_all") else {k: gen(t, rng, (c.get("gen") or {}).get(k)) for k, t in pt.items()}
+                ran += 1
+                f = run_case(qn, dict(c, params=pt), macros, args)
+                if f == "precondition-false":
+                    continue
+                ok_pre += 1
+                if isinstance(f, dict):
+                    failure = dict(args={k: jsonable(v) for k, v in args.items()}, failure=f)
+                    break
+        except ValueError as ex:
+            out.append(dict(function=qn, status="skipped", why="inputs not generatable: %s" % str(ex)[:60]))
+            continue
+        out.append(dict(function=qn, status="failed" if failure else "ok", generated=ran, satisfying_precondition=ok_pre, failure=failure))
+    return out
+
+
 def main(argv):
+    if argv[0] == "crosscheck":
+        n = int(argv[argv.index("--n") + 1]) if "--n" in argv else 300
+        seed = int(argv[argv.index("--seed") + 1]) if "--seed" in argv else 0
+        qns = [a for a in argv[1:] if "::" in a]
+        print(json.dumps(crosscheck(qns, n, seed)))
+        return 0
     if argv[0] == "search":
         qn = argv[1]
         model = json.load(sys.stdin if argv[2] == "-" else open(argv[2])) if len(argv) > 2 and argv[2] != "none" else None
